@@ -26,6 +26,10 @@ def run(chk: Check) -> None:
     int_alias_discipline(chk)
     interrupt_delivery(chk)
     cancel_hook(chk)
+    # "from a listener callback": the listeners are notified over a snapshot, inside the per-listener try -- a listener that kills the process (whose cleanup removes
+    # listeners) does not break the notification loop of the transition in progress (shared with C02)
+    from .c02 import listener_loop
+    listener_loop(chk, 'ESC-listener-loop')
     # the lifecycle tables must keep KILLED reachable from every live state
     prog = chk.prog
     for lbl in common.LIVE:
